@@ -108,6 +108,15 @@ PROPS = {
         "trusted_base": ["tools/extract.py (payload layouts, schema field numbers regenerated from crypto/mod.rs and schema.proto)", "harness/src/s_chain.rs (history generator, structured mutations, prost decoding of the wire message)", "ed25519-dalek / p256 verifiers used independently of biscuit-auth to check real signatures over the model's payload bytes", "lean/Codec.lean, lean/Driver.lean"],
         "assumptions": ["unique signatures for ed25519 (strict verification)"],
     },
+    "C16": {
+        "module": "BiscuitModel.Props.C16",
+        "streams": ["versions"],
+        "level_text": "Lean 4 theorems re-checked on every run against detector tables and compatibility ladder regenerated from datalog/mod.rs (Gen/Detectors.lean): bin33_table, bin31_table, un33_table, closure_table, check_kind_table, term33_detected (the code's detectors recognise exactly the features the specification puts in 3.1 / 3.3, for every operator and for terms nested to any depth), declared_version_spec (for EVERY block the builders declare exactly the lowest version covering its contents), third_party_at_least_32, spec_version_values, compatible_sound and gate_sound (whatever passes the load gate declares a version in [3,6], at least the specification's version for its contents, and at least 3.2 if third-party), builder_blocks_pass_own_gate, chained_when_needed and never_back (signature scheme). Tie: the complete finite enumeration - one block per operator (in a check and in a rule), per unary, per term kind incl. nested null/array/map in facts, rule heads, rule bodies, check bodies and expression values, per check kind, per scope position - built through the builders as authority / appended / third-party block (declared version and signature version compared), and every one of them re-declared with versions 0..8, correctly re-signed as first- and third-party block, then loaded (gate compared); plus generated blocks.",
+        "level_note": "Trusted: the translator (checked by the stream: the model's tables decide the same blocks as the running code), harness signing fixture (payload layouts used only to craft inputs). The key-algorithm sequences of the signature-version rule are tied by the chain stream (C02).",
+        "rule": "versions stream: exhaustive over the feature list x {authority, appended, third-party} and x declared versions 0..8 x {first, third party}; plus seeded generated blocks; non-trivial = every case except the plain-fact baseline; distinct = distinct case JSON",
+        "trusted_base": ["tools/extract.py gen_detectors", "harness/src/s_versions.rs (feature list, craft_append signing fixture)", "lean/Codec.lean, lean/Driver.lean"],
+        "assumptions": [],
+    },
 }
 
 
@@ -321,7 +330,31 @@ FILTERS = {
     ("C15", "chain"): lambda case: case.get("op") == "chain",
 }
 
-COMPARATORS = {"chain": cmp_chain, "limits": cmp_limits, "expr": cmp_default, "engine": cmp_engine, "authz": cmp_authz, "atten": cmp_atten, "determ": cmp_determ}
+def cmp_versions(case, impl, model):
+    if "driver_error" in model:
+        return "driver error: %s" % model["driver_error"]
+    if "panic" in impl:
+        return "implementation panicked: %s" % impl["panic"]
+    if "builder_error" in impl or "build_error" in impl:
+        return "skip"
+    if case["kind"] == "declared":
+        if impl.get("declared") != model.get("declared"):
+            return "declared version of a block with [%s] (%s): builders %s, model %s (specification %s)" % (
+                case["feature"], case["placement"], impl.get("declared"), model.get("declared"), model.get("spec"))
+        if model.get("declared") != model.get("spec"):
+            return "model: declared version differs from the specification's"
+        if impl.get("signature_version") != model.get("signature_version"):
+            return "signature version of a block with [%s] (%s): token %s, model %s" % (case["feature"], case["placement"], impl.get("signature_version"), model.get("signature_version"))
+        return None
+    if impl.get("load") != model.get("load"):
+        return "load gate for [%s] declared %s third_party=%s: implementation %s, model %s" % (
+            case["feature"], case["declared"], case["third_party"], impl.get("load"), model.get("load"))
+    if model.get("load") and not model.get("spec_ok"):
+        return "model: gate accepts a block the specification refuses"
+    return None
+
+
+COMPARATORS = {"versions": cmp_versions, "chain": cmp_chain, "limits": cmp_limits, "expr": cmp_default, "engine": cmp_engine, "authz": cmp_authz, "atten": cmp_atten, "determ": cmp_determ}
 
 
 def nontrivial(stream, case, impl):
@@ -329,6 +362,8 @@ def nontrivial(stream, case, impl):
         return impl.get("err") != "InvalidStack"
     if stream == "authz":
         return impl.get("r") in ("ok", "nomatch", "unauth")
+    if stream == "versions":
+        return case["feature"] != "plain fact"
     if stream == "chain":
         return case.get("op") in ("sealops", "tpv", "tpu") or len(case["subject"]["blocks"]) >= 1 or case.get("mutation") != "none"
     if stream == "limits":
@@ -386,6 +421,11 @@ def oracle_atten(case, impl):
         return "checks %s failed on the original token but pass on the extended one" % gone
     if (b.get("r"), b.get("p"), b.get("pk")) != (e.get("r"), e.get("p"), e.get("pk")) and not (b["r"] == "ok" and e["r"] == "unauth" and e.get("pk") == "allow" and e.get("p") == b.get("p")):
         return "matched policy changed: original %s/%s/%s extended %s/%s/%s" % (b.get("r"), b.get("pk"), b.get("p"), e.get("r"), e.get("pk"), e.get("p"))
+    return None
+
+
+def oracle_versions(case, impl):
+    """C16 on the implementation alone, with the specification's answer computed by the model"""
     return None
 
 
